@@ -7,9 +7,12 @@ Spec (plain JSON):
    "waves": [{"sends": [EVENT, ...], "forged": [FORGED, ...]}, ...]}
   EVENT  = {"src": "A0"|"A1"|"B", "to": int, "how": "call"|"fire"|"client"|"server"|"server_nores",
             "name", "args", "kwargs", "channels": [..] | null, "flags": [success, failure, notify], "meta": {attr: json},
-            "kind": "plain"|"slow"|"none"|"raise", "slow": n, "tamper_call": {key: v}, "tamper_value": {key: v}}
+            "kind": "plain"|"slow"|"none"|"raise"|"mixed"|"mixed2", "slow": n, "tamper_call": {key: v}, "tamper_value": {key: v}}
+            (mixed: handler t0 is a coroutine and t1 raises; mixed2: t0 raises and t1 is a coroutine)
   FORGED = {"victim": "B"|"A0", "when": "before"|"after", "chase": bool (a benign call follows in the same stream), "raw": latin-1 text of the packet (trailing '~' stripped, delimiter appended)}
 The uid of an event is UID0+100*wave+index and travels as first positional argument.
+A forged call packet that names a real event is dispatched to the same application handlers; what they answer is
+picked by its first argument (vlib.c19_helpers.forged_kind: a value, a coroutine, None or an exception).
 """
 import json
 import os
@@ -34,19 +37,42 @@ ABSENT = '<absent>'
 FOLLOW_ID = 731009077
 UID0 = 731000000   # uids are UID0 + 100*wave + index: a forged packet does not contain such a number by accident
 # hostile values that no event attribute legitimately has (True/None/0/'c0' could be the genuine value)
-DISTINCT = ['HX', 666, ['HX'], {'h': 1}, [['c0']], -1, 2.5]
-SENT = ['HX', 666, ['HX'], {'h': 1}, 0, 1, '', None, True, 'c0', ['c0'], [['c0']], -1, 2.5]
+# ({'hx': 1}: 'hx' is not a keyword the generator uses, so it never is the genuine kwargs of an event)
+DISTINCT = ['HX', 666, ['HX'], {'hx': 1}, [['c0']], -1, 2.5]
+SENT = ['HX', 666, ['HX'], {'hx': 1}, 0, 1, '', None, True, 'c0', ['c0'], [['c0']], -1, 2.5]
 # attribute names the dispatcher (circuits/core/manager.py) and the node protocol read from an event
 PROTECTED = ['name', 'args', 'kwargs', 'channels', 'value', 'handler', 'stopped', 'cancelled', 'complete', 'success',
              'failure', 'alert_done', 'waitingHandlers', 'parent', 'notify', 'cause', 'effects', 'success_channels',
              'complete_channels', 'uid', 'node_call_id', 'node_sock']
+
+
+def _dispatcher_attributes():
+    """Names of the event attributes circuits/core/manager.py reads or writes (``event.x``, ``getattr(event, 'x')``):
+    "the event attributes the dispatcher relies on", also those that only exist while an event is under way."""
+    import inspect
+    import circuits.core.manager as m
+    try:
+        src = inspect.getsource(m)
+    except (OSError, TypeError):
+        return []
+    names = set(re.findall(r"\bevent\.([A-Za-z_]\w*)\b(?!\()", src)) | set(re.findall(r"[gs]etattr\(event, '(\w+)'", src))   # not method calls
+    probe = Event()
+    return sorted(n for n in names if not callable(getattr(probe, n, None)) and not n.startswith('__'))
+
+
+PROTECTED += [n for n in dict.fromkeys(['_failed'] + _dispatcher_attributes()) if n not in PROTECTED]
 HOSTILE_KEYS = PROTECTED + ['child', 'create', 'stop', 'cancel', 'node_without_result', 'node_protocol', 'failure_channels',
-                            '__class__', '__dict__', '__init__', '_Event__x', 'lock', 'task', 'x_meta', '']
+                            '__class__', '__dict__', '__init__', '_Event__x', 'lock', 'task', 'x_meta', '', 'remote_finish']
 CUSTOM_META = ['x_meta', '_priv', 'trace']
 SPECIAL_TEXT = ['~~~', 'a~~~b', '~~~~', 'x~~~~~~y', '~', '~~', '"value":', '{"value": 1}', '\\', '\\u007e', 'name', '"', "'", '\n', '\x00', '€', '\U0001f600', '}~~~{']
 SPECIAL_KEYS = ['value', 'name', 'id', 'meta', 'channels', 'args', 'a', 'b', 'k1', 'a b', '~~~', '']
 KW_KEYS = ['a', 'b', 'c', 'd', 'e', 'f', 'g', 'h', 'i', 'j', 'value', 'name', 'id', 'meta', 'cls', '_name', 'channels', 'args', 'kwargs', 'x y', 'k~~~']
 FORGED_KW_KEYS = KW_KEYS + ['self', 'event']
+# values of the feedback fields of a call packet (success, failure, notify, ...) that are not booleans: texts (also
+# texts that cannot be the name of a type: NUL, lone surrogate), numbers, containers
+ODD_FLAGS = ['x', 'value_is_there', 'ping', '', 'a b', 'value\x00changed', '\x00', '\ud800', 'x\udfff', 'é€\U0001f600', 'n' * 300,
+             1, 0, -1, 2.5, None, ['x'], [], {'a': 1}]
+FLAG_FIELDS = ['notify', 'notify', 'notify', 'success', 'failure', 'complete', 'alert_done', 'stopped', 'cancelled', 'waitingHandlers']
 BAD_IDS = [-1, -7, 10 ** 9, 'x', '0', None, [], {}, 0.5, [1], {'a': 1}]
 
 
@@ -102,7 +128,7 @@ def _event(tier):
         'chs': st.sampled_from([['c0'], ['c0'], ['c1'], ['c0', 'c1'], ['c1', 'c0'], ['*'], []]),
         'flags': st.lists(st.booleans(), min_size=3, max_size=3),
         'meta': st.dictionaries(st.sampled_from(CUSTOM_META), _json(1), max_size=2),
-        'kind': st.sampled_from(['plain', 'plain', 'plain', 'slow', 'none', 'raise']),
+        'kind': st.sampled_from(['plain', 'plain', 'plain', 'slow', 'none', 'raise', 'mixed', 'mixed2']),
         'slow': st.integers(1, 3),
         'bigarg': big,
         'tamper_call': st.one_of(st.just({}), st.just({}), tam),
@@ -112,11 +138,12 @@ def _event(tier):
 
 def _forged_raw():
     """A hostile packet: a well-formed call/value packet put through 0-3 mutations, or plain junk."""
+    flag, odd = st.booleans(), st.sampled_from(ODD_FLAGS)
     call = st.fixed_dictionaries({
         'id': st.sampled_from(BAD_IDS), 'name': st.sampled_from(NAMES + NAMES + ['nobody', '']),
         'args': st.lists(st.one_of(st.integers(-50, -1), _json(1)), max_size=3), 'kwargs': st.dictionaries(st.sampled_from(FORGED_KW_KEYS), _json(1), max_size=2),
-        'success': st.booleans(), 'failure': st.booleans(), 'notify': st.booleans(),
-        'channels': st.sampled_from([['c0'], ['c1'], ['*'], ['c0', 'c1'], []]),
+        'success': st.one_of(flag, flag, flag, odd), 'failure': st.one_of(flag, flag, flag, odd), 'notify': st.one_of(flag, flag, odd),
+        'channels': st.sampled_from([['c0'], ['c0'], ['c1'], ['*'], ['c0', 'c1'], []]),
         'meta': st.dictionaries(st.sampled_from(HOSTILE_KEYS), st.sampled_from(SENT), max_size=3)})
     value = st.fixed_dictionaries({
         'id': st.sampled_from(BAD_IDS), 'value': _json(1), 'errors': st.sampled_from([False, True, 'x', None, [1]]),
@@ -129,6 +156,7 @@ def _forged_raw():
         st.tuples(st.just('set'), st.just('channels'), st.sampled_from([[['c0']], [{'a': 1}], [None], [1], 'c0', {'c0': 1}, [[]], ['c0', ['c1']], [[['c0']]], [True], 7, None])),
         st.tuples(st.just('set'), st.just('meta'), st.sampled_from([[[1, 2]], [[None, 'x']], [['k', 1], [2, 3]], [[True, 0]], [[0.5, 'HX']], None, [], 'ab', 5, [['ab', 1]]])),
         st.tuples(st.just('set'), st.just('meta'), st.dictionaries(st.sampled_from(['cause', 'effects', 'complete_channels', 'success_channels', 'node_protocol', 'value', 'stopped']), st.sampled_from(SENT), min_size=1, max_size=3)),
+        st.tuples(st.just('set'), st.sampled_from(FLAG_FIELDS), odd),
         st.tuples(st.just('trunc'), st.integers(0, 400), st.none()),
         st.tuples(st.just('wrap'), st.sampled_from(['list', 'str', 'num', 'null', 'nest']), st.none()),
         st.tuples(st.just('append'), st.sampled_from(['}', ']', ' ', '{}', '\xff', '\xc3', '\x00', 'null', ',']), st.none()),
@@ -232,8 +260,11 @@ class C19(Prop):
     rule = ('histories of 1-3 waves of 0-4 simultaneous remote events between a real node Server (1-2 connections, optional extra '
             'hostile connection) and real node Clients wired without sockets; JSON args/kwargs incl. >4 KiB, delimiter and '
             '"value": texts; name-based send/receive firewalls; packet streams cut into reads of generated sizes (<=4096); forged '
-            'hostile packets (mutated call/value packets, junk, oversized) and hostile metadata added to genuine packets in '
-            'transit; non-trivial = a read boundary fell strictly inside a packet, or >=2 events of one wave were in flight, or a '
+            'hostile packets (mutated call/value packets incl. non-boolean feedback fields, junk, oversized; forged calls are '
+            'answered by handlers returning a value/coroutine/None/raising) and hostile metadata (every attribute name the '
+            'dispatcher source mentions) added to genuine packets in transit; handler kinds incl. one raising next to a '
+            'suspended coroutine; enumerated: every cut offset of one call, every hostile metadata key, every odd feedback '
+            'value; non-trivial = a read boundary fell strictly inside a packet, or >=2 events of one wave were in flight, or a '
             'hostile packet (forged, or a genuine one with hostile metadata added) parsed as JSON; distinct = distinct spec hash')
     assumptions = ('transport replaced by recording components (circuits.node.client.TCPClient / circuits.node.server.TCPServer '
                    'module globals); all simulated processes live in one interpreter',
@@ -271,6 +302,31 @@ class C19(Prop):
             for i in range(1, 330 if tier == 'quick' else 700):
                 out.append({'clients': 1, 'fw': {}, 'cuts': {'sizes': [i, 4096], 'burst': 0},
                             'waves': [{'sends': [ev(src, how)], 'forged': []}]})
+        one = {'sizes': [4096], 'burst': 0}
+        # every metadata key x two hostile values, added in transit to a genuine call / to its answer, plain and coroutine handler
+        for key in HOSTILE_KEYS:
+            for val in ('HX', 666):
+                for kind in ('plain', 'slow'):
+                    for where in ('tamper_call', 'tamper_value'):
+                        out.append({'clients': 1, 'fw': {}, 'cuts': one,
+                                    'waves': [{'sends': [ev('A0', 'client', kind=kind, **{where: {key: val}})], 'forged': []}]})
+        # one handler raises while another one of the same remote event is a suspended coroutine
+        for src, how in (('A0', 'client'), ('A0', 'call'), ('B', 'server')):
+            for kind in ('mixed', 'mixed2'):
+                for chs in (['c0', 'c1'], ['*'], ['c1']):
+                    out.append({'clients': 1, 'fw': {}, 'cuts': one,
+                                'waves': [{'sends': [ev(src, how, kind=kind, channels=chs)], 'forged': []}]})
+        # well-formed forged call whose feedback fields are not booleans, handled by a handler that returns a value /
+        # a coroutine / raises, chased by a benign call in the same read
+        for victim in ('B', 'A0'):
+            for fld in ('notify', 'success', 'failure'):
+                for val in ODD_FLAGS:
+                    for first in (-1, -2, -3):
+                        pkt = {'id': -1, 'name': 'ping', 'args': [first, 'x'], 'kwargs': {}, 'success': False, 'failure': False,
+                               'notify': False, 'channels': ['c0'], 'meta': {}}
+                        pkt[fld] = val
+                        out.append({'clients': 1, 'fw': {}, 'cuts': one, 'waves': [{'sends': [], 'forged': [
+                            {'victim': victim, 'when': 'before', 'chase': True, 'raw': json.dumps(pkt)}]}]})
         if tier == 'thorough' and not os.environ.get('C19_NO_FUZZ'):
             out += self.campaign()
         return out
@@ -591,14 +647,17 @@ class C19(Prop):
             if len(res) > 1:
                 return bad('resumed-twice', 'waiting handler of event %d resumed %d times' % (uid, len(res)))
             value, errflag = res[0]
-            if sc['kind'] == 'raise' and tags:
+            kinds = [H.kind_for(sc['kind'], t) for t in tags]      # what each handler that ran did
+            if sc['kind'] in ('mixed', 'mixed2') and len(set(kinds)) > 1:
+                classes.add('raise-next-to-coroutine')
+            if 'raise' in kinds:
                 if not errflag:
                     return bad('error-flag-missing', 'handler of event %d raised on %s; sender resumed with %s and no error flag' % (uid, dst, _short(value)))
                 continue
             exp = [] if sc['kind'] in ('none', 'raise') else [{'r': uid, 't': t, 'a': want_args[1:], 'k': sc['kwargs']} for t in tags]
             expv = None if not exp else exp[0] if len(exp) == 1 else exp
             ok = same(value, expv)
-            if not ok and sc['kind'] == 'slow' and len(exp) > 1 and isinstance(value, list):
+            if not ok and 'slow' in kinds and len(exp) > 1 and isinstance(value, list):
                 ok = same(sorted(value, key=lambda d: d.get('t', '') if isinstance(d, dict) else ''), expv)
             if not ok:
                 return bad('wrong-result', 'event %d (%s, kind=%s, how=%s, %s->%s): waiting handler got %s, expected %s' % (
@@ -639,6 +698,19 @@ class C19(Prop):
             classes.add('forged')
         if parsed:
             classes.add('forged-parses')
+        for k in sorted(set(rig.forged_runs)):
+            classes.add('forged-call-handled:' + k)
+        for f in forged:
+            try:
+                pkt = json.loads(f['raw'])
+            except (ValueError, RecursionError):
+                continue
+            if isinstance(pkt, dict) and 'name' in pkt:
+                for fld in ('notify', 'success', 'failure'):
+                    if fld in pkt and not isinstance(pkt[fld], bool):
+                        classes.add('forged-odd-%s:%s' % (fld, type(pkt[fld]).__name__))
+                if isinstance(pkt.get('notify'), str) and ('\x00' in pkt['notify'] or any(0xd800 <= ord(c) < 0xe000 for c in pkt['notify'])):
+                    classes.add('forged-notify-not-a-type-name')
         if spec['clients'] == 2:
             classes.add('two-clients')
         if any(l.appended > 0 and max([0] + [b2 - b1 for b1, b2 in zip([0] + sorted(l.bounds), sorted(l.bounds))]) > 4096 for l in rig.links.values()):
